@@ -32,6 +32,20 @@ CHECKS = {
         },
         "assumptions": COMMON_ASSUME,
     },
+    "C02": {
+        "bin": "c02",
+        "quick": cfgs(["dflt", "cmp", "rdxfmt"]),
+        "thorough": cfgs(["dflt"], args=["--all32"]) + cfgs(["cmp", "rdxfmt", "cmprdxfmt"]),
+        "rule": "complete enumeration of float value families BIN (every binade x structured mantissa patterns), SD (floats nearest "
+                "to every <= d-digit decimal at every exponent, and both neighbours), BD (binade borders, extremes), INT (small integers "
+                "and neighbours), ZERO; thorough adds ALL32 (every positive finite f32). Output parsed by the reference grammar and judged "
+                "exactly: round trip, shortest, closest (non-compact) / <= 17,9 digits (compact); non-trivial = outputs with >= 16 digits",
+        "bounds": {
+            "quick": "BIN level 2 (~330 mantissa patterns x every binade), SD d=3, INT < 2^14; f32 and f64; 1-in-64 negated",
+            "thorough": "BIN level 3 (~4400 patterns x every binade), SD d=4, INT < 2^20, ALL32 = all 2^31-2^23-1 positive finite f32 (dflt config)",
+        },
+        "assumptions": COMMON_ASSUME,
+    },
 }
 
 # properties not claimed (reason). Kept current by hand.
